@@ -34,20 +34,20 @@ def isOk {ε α : Type} : Except ε α → Bool
 
 /-! ## mean first passage time -/
 
-theorem mfpt_eq (A : AMat Int n) (o : MfptOut n) (h : mfpt A = .ok o) :
-    (∀ i k, o.P.get i k = (A.get i k : ℚ) / ∑ l, (A.get i l : ℚ)) ∧
+theorem mfpt_eq (A : QMat n) (o : MfptOut n) (h : mfpt A = .ok o) :
+    (∀ i k, o.P.get i k = A.get i k / ∑ l, A.get i l) ∧
     (∀ i, ∑ k, o.P.get i k = 1) ∧
     (∀ j, o.M.get j j = 0) ∧
     (∀ i j, i ≠ j → o.M.get i j = 1 + ∑ k ∈ univ.erase j, o.P.get i k * o.M.get k j) := by
   obtain ⟨hrow, hP, hst, hw0, hinv, hM⟩ := mfpt_ok h
-  have hPget : ∀ i k, o.P.get i k = (A.get i k : ℚ) / ∑ l, (A.get i l : ℚ) := by
+  have hPget : ∀ i k, o.P.get i k = A.get i k / ∑ l, A.get i l := by
     intro i k
-    rw [hP]; simp only [transition, AMat.get_ofFn, rowSum, fsum_eq, toQ_get]
+    rw [hP]; simp only [transition, AMat.get_ofFn, rowSum, fsum_eq]
   have hPsum : ∀ i, ∑ k, o.P.get i k = 1 := by
     intro i
     simp only [hPget, ← Finset.sum_div]
     have := hrow i
-    simp only [rowSum, fsum_eq, toQ_get] at this
+    simp only [rowSum, fsum_eq] at this
     exact div_self this
   have hMget : ∀ i j, o.M.get i j = (o.Z.get j j - o.Z.get i j) / o.w[j] := by
     intro i j; rw [hM]; simp
@@ -63,12 +63,12 @@ theorem mfpt_eq (A : AMat Int n) (o : MfptOut n) (h : mfpt A = .ok o) :
 def star3 : AMat Int 3 := AMat.ofFn fun i j => if (i.val = 0) != (j.val = 0) then 1 else 0
 
 /-- non-vacuity: the star on 3 nodes has an `ok` result, and leaf-to-leaf passage takes 4 steps -/
-example : (match mfpt star3 with | .ok o => o.M.get 1 2 == 4 && o.M.get 0 1 == 3 | _ => false) = true := by
+example : (match mfpt (toQ star3) with | .ok o => o.M.get 1 2 == 4 && o.M.get 0 1 == 3 | _ => false) = true := by
   decide +kernel
 
 /-! ## diffusion efficiency -/
 
-theorem diffeff_spec (A : AMat Int n) (o : DiffOut n) (h : diffEff A = .ok o) :
+theorem diffeff_spec (A : QMat n) (o : DiffOut n) (h : diffEff A = .ok o) :
     (∃ m, mfpt A = .ok m ∧ o.M = m.M) ∧
     (∀ i, o.E.get i i = 0) ∧
     (∀ i j, i ≠ j → o.E.get i j * o.M.get i j = 1) ∧
@@ -80,11 +80,11 @@ theorem diffeff_spec (A : AMat Int n) (o : DiffOut n) (h : diffEff A = .ok o) :
     field_simp
   · rw [hg]; simp only [fsum_eq]
 
-example : (match diffEff star3 with | .ok o => o.g == 19/36 | _ => false) = true := by decide +kernel
+example : (match diffEff (toQ star3) with | .ok o => o.g == 19/36 | _ => false) = true := by decide +kernel
 
 /-! ## PageRank -/
 
-theorem pagerank_prior (A : AMat Int n) (d : ℚ) (f : Option (Vector Int n)) (o : PrOut n)
+theorem pagerank_prior (A : QMat n) (d : ℚ) (f : Option (Vector Int n)) (o : PrOut n)
     (h : pagerank A d f = .ok o) :
     (∑ i : Fin n, o.f[i] = 1) ∧
     (f = none → ∀ i : Fin n, o.f[i] = 1 / (n : ℚ)) ∧
@@ -102,7 +102,7 @@ theorem pagerank_prior (A : AMat Int n) (d : ℚ) (f : Option (Vector Int n)) (o
     split_ifs at hp
     rw [← Except.ok.inj hp]; simp [fsum_eq]
 
-theorem pagerank_sum_one (A : AMat Int n) (d : ℚ) (f : Option (Vector Int n)) (o : PrOut n)
+theorem pagerank_sum_one (A : QMat n) (d : ℚ) (f : Option (Vector Int n)) (o : PrOut n)
     (h : pagerank A d f = .ok o) : ∑ i : Fin n, o.r[i] = 1 := by
   obtain ⟨-, -, hs, hr⟩ := pagerank_ok h
   rw [hr]; simp only [Fin.getElem_fin, Vector.getElem_ofFn, ← Finset.sum_div]
@@ -111,18 +111,18 @@ theorem pagerank_sum_one (A : AMat Int n) (d : ℚ) (f : Option (Vector Int n)) 
 
 /-- the linear system the code solves, written out: `r0 = d·A·D1·r0 + (1−d)·f` with `D1 = 1/deg`,
 `deg` the column sums with zeros replaced by one; and the returned `r` is `r0 / Σ r0`. -/
-theorem pagerank_system (A : AMat Int n) (d : ℚ) (f : Option (Vector Int n)) (o : PrOut n)
+theorem pagerank_system (A : QMat n) (d : ℚ) (f : Option (Vector Int n)) (o : PrOut n)
     (h : pagerank A d f = .ok o) :
-    (∀ i : Fin n, o.r0[i] = d * ∑ j : Fin n, (A.get i j : ℚ) / colDeg A j * o.r0[j] + (1 - d) * o.f[i]) ∧
+    (∀ i : Fin n, o.r0[i] = d * ∑ j : Fin n, A.get i j / colDeg A j * o.r0[j] + (1 - d) * o.f[i]) ∧
     (∀ i : Fin n, o.r[i] = o.r0[i] / ∑ k : Fin n, o.r0[k]) := by
   obtain ⟨-, hsol, -, hr⟩ := pagerank_ok h
   have hsol' := (solves_iff _ _ _).mp hsol
   constructor
   · intro i
     have := hsol' i
-    simp only [prMat, AMat.get_ofFn, toQ_get, delta_eq, Fin.getElem_fin, Vector.getElem_ofFn] at this
-    have e : ∑ k : Fin n, ((if i = k then (1 : ℚ) else 0) - d * ((A.get i k : ℚ) / colDeg A k)) * o.r0[k.val]
-        = o.r0[i.val] - d * ∑ k : Fin n, (A.get i k : ℚ) / colDeg A k * o.r0[k.val] := by
+    simp only [prMat, AMat.get_ofFn, delta_eq, Fin.getElem_fin, Vector.getElem_ofFn] at this
+    have e : ∑ k : Fin n, ((if i = k then (1 : ℚ) else 0) - d * (A.get i k / colDeg A k)) * o.r0[k.val]
+        = o.r0[i.val] - d * ∑ k : Fin n, A.get i k / colDeg A k * o.r0[k.val] := by
       simp only [sub_mul, Finset.sum_sub_distrib, ite_mul, one_mul, zero_mul, Finset.sum_ite_eq,
         Finset.mem_univ, if_true, Finset.mul_sum]
       congr 1
@@ -134,20 +134,20 @@ theorem pagerank_system (A : AMat Int n) (d : ℚ) (f : Option (Vector Int n)) (
 
 /-- With no empty column the solution of the linear system already sums to one, the final
 normalisation is the identity and the returned vector satisfies `r = d·A·D⁻¹·r + (1−d)·f`. -/
-theorem pagerank_eq (A : AMat Int n) (d : ℚ) (f : Option (Vector Int n)) (o : PrOut n)
-    (h : pagerank A d f = .ok o) (hdeg : ∀ j, ∑ i, (A.get i j : ℚ) ≠ 0) (hd : d ≠ 1) :
-    ∀ i : Fin n, o.r[i] = d * ∑ j : Fin n, (A.get i j : ℚ) / (∑ l, (A.get l j : ℚ)) * o.r[j] + (1 - d) * o.f[i] := by
+theorem pagerank_eq (A : QMat n) (d : ℚ) (f : Option (Vector Int n)) (o : PrOut n)
+    (h : pagerank A d f = .ok o) (hdeg : ∀ j, ∑ i, A.get i j ≠ 0) (hd : d ≠ 1) :
+    ∀ i : Fin n, o.r[i] = d * ∑ j : Fin n, A.get i j / (∑ l, A.get l j) * o.r[j] + (1 - d) * o.f[i] := by
   obtain ⟨hsys, hr⟩ := pagerank_system A d f o h
   obtain ⟨hf1, -, -⟩ := pagerank_prior A d f o h
-  have hcd : ∀ j, colDeg A j = ∑ l, (A.get l j : ℚ) := by
-    intro j; simp only [colDeg, fsum_eq, toQ_get, hdeg j, if_false]
+  have hcd : ∀ j, colDeg A j = ∑ l, A.get l j := by
+    intro j; simp only [colDeg, fsum_eq, hdeg j, if_false]
   -- Σ r0 = 1
   have hs : ∑ i : Fin n, o.r0[i] = 1 := by
     have e : ∑ i : Fin n, o.r0[i] = d * ∑ i : Fin n, o.r0[i] + (1 - d) := by
       calc ∑ i : Fin n, o.r0[i]
-          = ∑ i : Fin n, (d * ∑ j : Fin n, (A.get i j : ℚ) / colDeg A j * o.r0[j] + (1 - d) * o.f[i]) :=
+          = ∑ i : Fin n, (d * ∑ j : Fin n, A.get i j / colDeg A j * o.r0[j] + (1 - d) * o.f[i]) :=
             Finset.sum_congr rfl (fun i _ => hsys i)
-        _ = d * ∑ i : Fin n, ∑ j : Fin n, (A.get i j : ℚ) / colDeg A j * o.r0[j] + (1 - d) * ∑ i : Fin n, o.f[i] := by
+        _ = d * ∑ i : Fin n, ∑ j : Fin n, A.get i j / colDeg A j * o.r0[j] + (1 - d) * ∑ i : Fin n, o.f[i] := by
             rw [Finset.sum_add_distrib, ← Finset.mul_sum, ← Finset.mul_sum]
         _ = d * ∑ j : Fin n, o.r0[j] + (1 - d) := by
             rw [hf1, mul_one, Finset.sum_comm]
@@ -163,39 +163,39 @@ theorem pagerank_eq (A : AMat Int n) (d : ℚ) (f : Option (Vector Int n)) (o : 
 
 /-- positivity: non-negative weights, no empty column, `0 ≤ d < 1`, non-negative prior  ⇒
 `r_i ≥ (1−d)·f_i ≥ 0` -/
-theorem pagerank_pos (A : AMat Int n) (d : ℚ) (f : Option (Vector Int n)) (o : PrOut n)
-    (h : pagerank A d f = .ok o) (hA : ∀ i j, 0 ≤ A.get i j) (hdeg : ∀ j, ∑ i, (A.get i j : ℚ) ≠ 0)
+theorem pagerank_pos (A : QMat n) (d : ℚ) (f : Option (Vector Int n)) (o : PrOut n)
+    (h : pagerank A d f = .ok o) (hA : ∀ i j, 0 ≤ A.get i j) (hdeg : ∀ j, ∑ i, A.get i j ≠ 0)
     (hd0 : 0 ≤ d) (hd1 : d < 1) (hf : ∀ i : Fin n, 0 ≤ o.f[i]) :
     ∀ i : Fin n, (1 - d) * o.f[i] ≤ o.r[i] := by
   have heq := pagerank_eq A d f o h hdeg (ne_of_lt hd1)
   obtain ⟨hf1, -, -⟩ := pagerank_prior A d f o h
-  have hdegpos : ∀ j, 0 < ∑ l, (A.get l j : ℚ) := by
+  have hdegpos : ∀ j, 0 < ∑ l, A.get l j := by
     intro j
-    exact lt_of_le_of_ne (Finset.sum_nonneg (fun l _ => by exact_mod_cast hA l j)) (Ne.symm (hdeg j))
-  exact (l1_nonneg (fun i j => (A.get i j : ℚ) / ∑ l, (A.get l j : ℚ))
-    (fun i j => div_nonneg (by exact_mod_cast hA i j) (hdegpos j).le)
+    exact lt_of_le_of_ne (Finset.sum_nonneg (fun l _ => hA l j)) (Ne.symm (hdeg j))
+  exact (l1_nonneg (fun i j => A.get i j / ∑ l, A.get l j)
+    (fun i j => div_nonneg (hA i j) (hdegpos j).le)
     (fun j => by rw [← Finset.sum_div]; exact div_self (hdeg j))
     d hd0 hd1 (fun i => o.f[i]) (fun i => o.r[i]) hf hf1 heq).2
 
 
 /-- uniqueness: any vector satisfying the PageRank equation is the returned one -/
-theorem pagerank_unique (A : AMat Int n) (d : ℚ) (f : Option (Vector Int n)) (o : PrOut n)
-    (h : pagerank A d f = .ok o) (hA : ∀ i j, 0 ≤ A.get i j) (hdeg : ∀ j, ∑ i, (A.get i j : ℚ) ≠ 0)
+theorem pagerank_unique (A : QMat n) (d : ℚ) (f : Option (Vector Int n)) (o : PrOut n)
+    (h : pagerank A d f = .ok o) (hA : ∀ i j, 0 ≤ A.get i j) (hdeg : ∀ j, ∑ i, A.get i j ≠ 0)
     (hd0 : 0 ≤ d) (hd1 : d < 1) (r' : Fin n → ℚ)
-    (hr' : ∀ i : Fin n, r' i = d * ∑ j : Fin n, (A.get i j : ℚ) / (∑ l, (A.get l j : ℚ)) * r' j + (1 - d) * o.f[i]) :
+    (hr' : ∀ i : Fin n, r' i = d * ∑ j : Fin n, A.get i j / (∑ l, A.get l j) * r' j + (1 - d) * o.f[i]) :
     ∀ i : Fin n, r' i = o.r[i] := by
   have heq := pagerank_eq A d f o h hdeg (ne_of_lt hd1)
-  have hdegpos : ∀ j, 0 < ∑ l, (A.get l j : ℚ) := by
+  have hdegpos : ∀ j, 0 < ∑ l, A.get l j := by
     intro j
-    exact lt_of_le_of_ne (Finset.sum_nonneg (fun l _ => by exact_mod_cast hA l j)) (Ne.symm (hdeg j))
-  exact fixed_point_unique (fun i j => (A.get i j : ℚ) / ∑ l, (A.get l j : ℚ))
-    (fun i j => div_nonneg (by exact_mod_cast hA i j) (hdegpos j).le)
+    exact lt_of_le_of_ne (Finset.sum_nonneg (fun l _ => hA l j)) (Ne.symm (hdeg j))
+  exact fixed_point_unique (fun i j => A.get i j / ∑ l, A.get l j)
+    (fun i j => div_nonneg (hA i j) (hdegpos j).le)
     (fun j => by rw [← Finset.sum_div]; exact div_self (hdeg j))
     d hd0 hd1 (fun i => (1 - d) * o.f[i]) r' (fun i => o.r[i]) hr' heq
 
 /-- default (uniform) prior: every PageRank value is strictly positive -/
-theorem pagerank_pos_default (A : AMat Int n) (d : ℚ) (o : PrOut n)
-    (h : pagerank A d none = .ok o) (hA : ∀ i j, 0 ≤ A.get i j) (hdeg : ∀ j, ∑ i, (A.get i j : ℚ) ≠ 0)
+theorem pagerank_pos_default (A : QMat n) (d : ℚ) (o : PrOut n)
+    (h : pagerank A d none = .ok o) (hA : ∀ i j, 0 ≤ A.get i j) (hdeg : ∀ j, ∑ i, A.get i j ≠ 0)
     (hd0 : 0 ≤ d) (hd1 : d < 1) : ∀ i : Fin n, 0 < o.r[i] := by
   obtain ⟨-, hnone, -⟩ := pagerank_prior A d none o h
   have hfi := hnone rfl
@@ -210,9 +210,22 @@ theorem pagerank_pos_default (A : AMat Int n) (d : ℚ) (o : PrOut n)
   have : 0 < (1 - d) * o.f[i] := mul_pos (by linarith) (hfpos i)
   linarith
 
-example : (match pagerank star3 (17/20) none with
+example : (match pagerank (toQ star3) (17/20) none with
     | .ok o => o.r[(0 : Fin 3)] == 18/37 && o.r[(1 : Fin 3)] == 19/74 | _ => false) = true := by decide +kernel
-example : ∀ j : Fin 3, ∑ i, (star3.get i j : ℚ) ≠ 0 := by decide +kernel
+example : ∀ j : Fin 3, ∑ i, (toQ star3).get i j ≠ 0 := by decide +kernel
+
+
+/-- fractional weights: every column strength of `weak3 / 8` is below one (4/8, 1/8, 3/8); the code must divide by
+the strength itself, not by `max(strength, 1)` -/
+def weak3 : AMat Int 3 := AMat.ofFn fun i j =>
+  if (i.val = 0 ∧ j.val = 1) ∨ (i.val = 1 ∧ j.val = 0) then 1
+  else if (i.val = 0 ∧ j.val = 2) ∨ (i.val = 2 ∧ j.val = 0) then 3 else 0
+example : colDeg (scaleQ weak3 8) 1 = 1 / 8 ∧ (∀ j : Fin 3, ∑ i, (scaleQ weak3 8).get i j ≠ 0) ∧
+    (match pagerank (scaleQ weak3 8) (1/2) none, pagerank (toQ weak3) (1/2) none with
+      | .ok o, .ok o' => o.r == o'.r && o.r[(0 : Fin 3)] == 4/9 && o.r[(1 : Fin 3)] == 2/9
+      | _, _ => false) = true ∧
+    (match mfpt (scaleQ weak3 8) with | .ok o => o.M.get 1 2 == 8/3 | _ => false) = true := by
+  decide +kernel
 
 /-! ## findwalks -/
 
